@@ -308,7 +308,17 @@ class Helper(object):
             body = body[1:]
         body = _destructure([copy.deepcopy(x) for x in body])
         self.body = body
-        allrets = [x for s2 in body for x in ast.walk(s2) if isinstance(x, ast.Return)]
+        def _own_returns(node):
+            # the helper's own return statements (those of functions nested in it are theirs)
+            for ch in ast.iter_child_nodes(node):
+                if isinstance(ch, (ast.FunctionDef, ast.AsyncFunctionDef, ast.Lambda, ast.ClassDef)):
+                    continue
+                if isinstance(ch, ast.Return):
+                    yield ch
+                for x in _own_returns(ch):
+                    yield x
+        allrets = [x for s2 in body if not isinstance(s2, (ast.FunctionDef, ast.AsyncFunctionDef, ast.ClassDef))
+                   for x in ([s2] if isinstance(s2, ast.Return) else []) + list(_own_returns(s2))]
         shape_ok = not allrets or (len(allrets) == 1 and body and allrets[0] is body[-1])
         self.tail = False
         if not shape_ok and body is not None:
@@ -393,6 +403,10 @@ def _is_call_to(call, helper, in_class):
         return False
     r = f.value.id
     if helper.kind == "method":
+        if r != "self" and getattr(helper, "unique", False) and helper.expr_only and in_class == helper.clsname:
+            # `other._h()` inside the class that owns the new helper _h (no other class of the module has an _h): the same helper,
+            # asked of another object of the class -- inlined with that object in the place of self
+            return True
         return r == "self" and in_class == helper.clsname
     return r in ("self", "cls", helper.clsname) and (in_class == helper.clsname or r == helper.clsname)
 
@@ -422,6 +436,8 @@ def _instantiate(helper, call, caller, counter, keep=()):
     for loc in stored - set(params):
         if loc in caller_names and loc not in keep:
             names[loc] = "%s_%s%d" % (loc, "h", counter)
+    if helper.kind == "method" and isinstance(call.func, ast.Attribute) and isinstance(call.func.value, ast.Name) and call.func.value.id != "self":
+        exprs["self"] = call.func.value
     if helper.kind == "class":
         first = _params(fn)[0]
         exprs[first] = ast.Name(id=helper.clsname, ctx=ast.Load()) if not (isinstance(call.func.value, ast.Name) and call.func.value.id in ("self", "cls")) \
@@ -458,14 +474,38 @@ class _ExprInliner(ast.NodeTransformer):
                 exprs = dict(m)
                 if h.kind == "class":
                     continue
+                if h.kind == "method" and isinstance(n.func, ast.Attribute) and isinstance(n.func.value, ast.Name) and n.func.value.id != "self":
+                    exprs["self"] = n.func.value
                 e = _Subst({}, exprs).visit(copy.deepcopy(h.expr_body))
                 self.changed = True
                 return ast.copy_location(e, n)
         return n
 
 
+def _lift_nested_helper_calls(stmts, helpers, in_class, state):
+    """`x = f(self._h(a))` where _h is a statement helper: the inner call gets its own statement first (`t = self._h(a); x = f(t)`),
+    so that the statement-level inlining below applies to it"""
+    out = []
+    for st in stmts:
+        v = getattr(st, "value", None)
+        if isinstance(st, (ast.Assign, ast.Expr, ast.Return)) and isinstance(v, ast.Call):
+            for i, a in enumerate(v.args):
+                if isinstance(a, ast.Call) and any(h.ok and not h.expr_only and _is_call_to(a, h, in_class) for h in helpers) \
+                        and not any(isinstance(x, ast.Call) for b in v.args[:i] for x in ast.walk(b)):
+                    state["n"] += 1
+                    tname = "_lifted%d" % state["n"]
+                    pre = ast.copy_location(ast.Assign(targets=[ast.Name(id=tname, ctx=ast.Store())], value=a), st)
+                    v.args[i] = ast.copy_location(ast.Name(id=tname, ctx=ast.Load()), a)
+                    ast.fix_missing_locations(pre)
+                    out.append(pre)
+                    break
+        out.append(st)
+    return out
+
+
 def _inline_block(stmts, helpers, in_class, caller, state):
     out = []
+    stmts = _lift_nested_helper_calls(stmts, helpers, in_class, state)
     for st in stmts:
         # recurse into compound statements first
         for field in ("body", "orelse", "finalbody"):
@@ -624,6 +664,8 @@ def inline_new_helpers(modname, tree, inv):
                 helpers.append(Helper(f, kind, node.name if is_class else None))
             if not helpers:
                 continue
+            for h_ in helpers:
+                h_.unique = sum(1 for x in ast.walk(tree) if isinstance(x, (ast.FunctionDef, ast.AsyncFunctionDef)) and x.name == h_.fn.name) == 1
             if is_class:
                 callers = [(f, node.name) for f in funcs]
                 # static helpers may also be called as Class._h(...) from module functions
